@@ -83,16 +83,16 @@ PROPS = {
         explanation='Header codec proved; store round trips bounded.',
     ),
     'C03': dict(
-        v=[], k=[], b=['c03_2pc'],
+        v=['C03_coord'], k=[], b=['c03_2pc', 'c03_force'],
         level='other',
-        technique='bounded native contract checks of the 2PC coordinator and participant (per-call contracts with ghost decision state over all short call sequences); no function of this property could be brought into Verus/Kani (parking_lot locks + HashMap::get_mut + WAL I/O entangled in each method)',
-        claim='BOUNDED: coordinator decides at most once, commit only from all-yes Prepared, a commit decision is never aborted or timed out, timed-out transactions are queued once with their participants and their locks released, participants apply writes iff commit — on every call sequence of length <= 5 (quick) over 1-2 transactions x 2-3 shards',
-        explanation='Bounded stand-in only (no deductive obligation): every enumerated call sequence on the real coordinator/participant satisfies the per-call contracts; message-loss histories and threads are not covered.',
+        technique='Verus: the decision-taking coordinator functions (commit, abort, complete_commit, complete_abort, force_resolve) extracted from distributed_tx.rs and proved against a coordinator invariant over a ghost image of the WAL record sequence (commit decision in memory iff durable; a durable abort is in memory; never both decisions on record); bounded native contract checks of vote recording, timeouts and the participant over all short call sequences',
+        claim='for every coordinator state and every WAL append outcome: commit only from Prepared, the commit/abort record is durable before it is acted on, an abort is never taken or logged after a commit record exists (and vice versa), failed appends leave memory and log agreeing (Verus; lock erased, vote map projected away, WAL append atomic w.r.t. its result); BOUNDED: commit only with every yes vote, duplicate/late/non-participant votes, timeouts, participant apply-iff-commit on every call sequence of length <= 5 (quick) over 1-2 transactions x 2-3 shards',
+        explanation='Decision stability of the coordinator proved per function against the durable-log invariant; vote counting (iterator adapters over the vote map), timeouts and the participant side are bounded; message-loss histories and threads are not covered.',
     ),
     'C13': dict(
-        v=['C13_walfile'], k=[], b=['c13_txrecovery'],
+        v=['C13_walfile', 'C03_coord'], k=[], b=['c13_txrecovery'],
         level='other',
-        technique='Verus: TxWal open scan proved equal to the whole-record-prefix spec (torn tail dropped on reopen); bounded native checks of the recovery fold (exhaustive on short logs) and of recover-then-act at every byte cut of real WAL files',
+        technique='Verus: TxWal open scan proved equal to the whole-record-prefix spec (torn tail dropped on reopen); the coordinator functions that write decision records proved to keep memory and the durable record sequence in agreement at every exit, including failed appends (unit C03.coord); bounded native checks of the recovery fold (exhaustive on short logs) and of recover-then-act at every byte cut of real WAL files',
         claim='TxWal::count_entries == whole-record prefix for every file (Verus); BOUNDED: classification fold matches the spec on all entry sequences <= 5 over 15 symbols, no logged outcome is reversible after recovery at any byte cut of scripted runs, an entry appended after a torn-tail reopen is recovered',
         explanation='Open scan proved; recovery behaviour bounded on real files.',
     ),
